@@ -85,6 +85,8 @@ pub fn bases() -> Vec<InstRep> {
         constraints: vec![
             ConRep::new(1, EQ_ZERO, Some(lin(vec![(1, 1.0), (2, 1.0)], -1.0))),
             ConRep::new(2, EQ_ZERO, Some(lin(vec![(2, 1.0)], 0.0))),
+            // a dependent variable (3) may still occur in an active constraint: that is well-formed
+            ConRep::new(5, LE_ZERO, Some(lin(vec![(3, 1.0), (1, -1.0)], 0.0))),
         ],
         dependencies: vec![(3, lin(vec![(1, 1.0)], 0.0)), (4, FnRep::Quad { entries: vec![(1, 2, 1.0)], lin: None })],
         // hints listed out of constraint-id order, two of them on the same constraint: all are content
@@ -513,6 +515,9 @@ fn variant_of(e: &ommx::parse::RawParseError) -> String {
         R::NonUniqueConstraintID { .. } => "NonUniqueConstraintID".into(),
         R::InvalidBound(_) => "InvalidBound".into(),
         R::DecodeError(_) => "DecodeError".into(),
+        // a variant the SDK may grow later: the harness must still build and give a verdict
+        #[allow(unreachable_patterns)]
+        other => format!("Other:{other}").chars().take(40).collect(),
     }
 }
 
